@@ -3,6 +3,7 @@ import PGV.Props.C17
 #print axioms PGV.Props.C17.C17_either_iff
 #print axioms PGV.Props.C17.C17_singleton_either
 #print axioms PGV.Props.C17.C17_singleton_botheq
+#print axioms PGV.Props.C17.deepEq_scalar
 #print axioms PGV.Props.C17.mapM_deepEq
 #print axioms PGV.Props.C17.C17_botheq_iff
 #print axioms PGV.Props.C17.C17_group_same_object
